@@ -83,7 +83,8 @@ PROPS = {
         extra={"cross_process": True}),
     "C12": solver_prop("Props/Properties_C12.v", "proof",
         "Coq proof: structural protocol scanner over the consumed trace + queue and non-emptiness invariants of the solver model; protocol checker on every recorded callback trace of the implementation",
-        "8 Coq theorems (Props/Properties_C12.v; Proofs/SolverProtocol.v, SolverQueue2.v, SolverProto2.v), all clauses of the property for the model of resolve, for ANY fuel: the calls the model consumes are accepted by the protocol scanner `shape` (any trace): should_cancel is the first call and occurs between any two choose_version calls; get_dependencies(p, v) only immediately after the choose_version(p, .) that returned v; at most once per (p, v); and, for every lawful VersionSet and every trace whose dependency answers carry well-formed sets: the set of each choose_version(p, set) call is the set of the LAST prioritize call for p and is NOT EMPTY; the FIRST choose_version call is for the root with the singleton set of the requested version, preceded by exactly one should_cancel and one prioritize call. Tie: the model replays every recorded trace (it refuses any call it would not make itself), and the protocol checker of the harness checks all clauses on the implementation's own trace."),
+        "8 Coq theorems (Props/Properties_C12.v; Proofs/SolverProtocol.v, SolverQueue2.v, SolverProto2.v), all clauses of the property for the model of resolve, for ANY fuel: the calls the model consumes are accepted by the protocol scanner `shape` (any trace): should_cancel is the first call and occurs between any two choose_version calls; get_dependencies(p, v) only immediately after the choose_version(p, .) that returned v; at most once per (p, v); and, for every lawful VersionSet and every trace whose dependency answers carry well-formed sets: the set of each choose_version(p, set) call is the set of the LAST prioritize call for p and is NOT EMPTY; the FIRST choose_version call is for the root with the singleton set of the requested version, preceded by exactly one should_cancel and one prioritize call. Tie: the model replays every recorded trace (it refuses any call it would not make itself), and the protocol checker of the harness checks all clauses on the implementation's own trace.",
+        domains=("solver", "faults")),
     "C13": solver_prop("Props/Properties_C13.v", "other",
         "fault enumeration: every position of the fault-free trace, every callback kind, plus out-of-set answers; compared with the Coq model",
         "Coq (5 theorems): the result is a function of the consumed prefix of the answers; error outcomes are explained by an error answer of the matching callback; an error answer is the LAST call of the run (nothing follows it among the consumed calls) and the outcome is then the matching error carrying the queried package and version. Exploration: for each base run a fault is injected at every index of its callback trace (error at should_cancel / choose_version / get_dependencies; out-of-set version at choose_version): the faulty trace must equal the fault-free one up to the fault, stop there, and the result must be the matching error variant with the same payload (package and version for get_dependencies) or Failure for an out-of-set version; the model reproduces each faulty run. Coq (2 theorems, Props/Properties_C13.v): the model's result is a function of the consumed trace prefix (no further call matters once the outcome is determined) and every error outcome is explained by an error answer of the matching callback with the same package and version (or an out-of-set answer for Failure).",
